@@ -94,6 +94,21 @@ func c20Gen(rng *verifsim.RNG, idx int, tier string) *Plan {
 			p.Class = "scripted-only+signal-held"
 		}
 	}
+	if !scripted && rng.Bool(0.35) {
+		// a real interface task fails for good (permission error on its socket):
+		// every other task must be cancelled and Serve must report that error
+		var real []string
+		for _, is := range n.Config.Interfaces {
+			if is.Advertise || is.Monitor {
+				real = append(real, is.names()...)
+			}
+		}
+		if len(real) > 0 {
+			p.Class = "real-tasks+fatal"
+			victim := real[rng.Intn(len(real))]
+			p.Faults = append(p.Faults, Fault{Seam: "read", If: victim, From: int64(rng.Dur(0, horizon/2)) + 1, Err: []string{"EPERM", "opaque"}[rng.Intn(2)]})
+		}
+	}
 	if rng.Bool(0.85) {
 		p.Actions = append(p.Actions, Action{At: sigAt, Kind: "signal", Sig: sig})
 		p.Horizon = sigAt + 5*nsSec
@@ -238,6 +253,15 @@ func c20Oracle(info *runInfo, res *verifsim.Result) {
 			}
 			if t.cancelled == nil || t.cancelled.T > firstFail.exit.T {
 				res.Violate("C20.cancelall", "cancelall", "task %s failed at %s but %s was not cancelled then (cancelled: %v)", firstFail.name, ms(firstFail.exit.T), s, evT(t.cancelled))
+			}
+		}
+		for _, s := range names {
+			t := tasks[s]
+			if strings.HasPrefix(s, "script ") || t == firstFail || t.enter == nil {
+				continue
+			}
+			if t.exit == nil || t.exit.T > firstFail.exit.T+nsSec {
+				res.Violate("C20.cancelall", "real-task-lingers", "task %s failed at %s but %s was still running a second later", firstFail.name, ms(firstFail.exit.T), s)
 			}
 		}
 		if !strings.Contains(serveExit.Err, firstFail.exit.Err) {
